@@ -173,7 +173,7 @@ func (r vfMQTTReq) Context() *context.Context {
 func vfEnvironmental(kind string, tree map[string]interface{}, text string) bool {
 	if kind == "Kafka" || kind == "KafkaMQTT" {
 		b, _ := tree["backend"].([]interface{})
-		if strings.Contains(text, "start sarama producer") && len(b) > 0 {
+		if strings.HasPrefix(text, "start sarama producer with address [") && !strings.HasPrefix(text, "start sarama producer with address []") && len(b) > 0 {
 			return true
 		}
 	}
@@ -204,7 +204,7 @@ func TestVerifC13Filters(t *testing.T) {
 		}()
 		_ = base
 		// the first kinds of the list are the richest; give them more weight
-		ki := rapid.IntRange(0, len(all)+5).Draw(rt, "kind")
+		ki := vfUniform(rt, "kind", len(all)+6)
 		if ki >= len(all) {
 			ki = (ki - len(all)) % 3
 		}
@@ -219,6 +219,12 @@ func TestVerifC13Filters(t *testing.T) {
 		spec, err := filters.NewSpec(env.super, "pl1", raw)
 		if err != nil {
 			vf.Class("rejected", "rejected kind="+kindName)
+			if os.Getenv("VF_C13_REASONS") != "" {
+				fmt.Printf("REASON %s: %s\n", kindName, strings.ReplaceAll(err.Error(), "\n", " | "))
+				if os.Getenv("VF_C13_REASONS") == kindName {
+					fmt.Printf("SPEC<<\n%s>>\n", text)
+				}
+			}
 			vf.Case(false, "", nil)
 			return
 		}
@@ -255,7 +261,7 @@ func TestVerifC13Filters(t *testing.T) {
 
 		handled := 0
 		var reqClasses []string
-		nreq := rapid.IntRange(1, 4).Draw(rt, "nreq")
+		nreq := 1 + vfUniform(rt, "nreq", 4)
 		cur := f
 		for i := 0; i < nreq; i++ {
 			var ctx *context.Context
